@@ -2,7 +2,7 @@
 The patch is applied to /repo only for the duration of the check runs and reverted straight afterwards."""
 import json, os, pathlib, shutil, subprocess, sys, tempfile
 ID, k = sys.argv[1], sys.argv[2]
-PROP = ID.rstrip("xyz")
+PROP = ID[:3]
 srcd = pathlib.Path(f"/tmp/seed/{ID}.out/{k}")
 dst = pathlib.Path(f"/verif/seeded/{ID}-{k}")
 dst.mkdir(parents=True, exist_ok=True)
